@@ -710,3 +710,46 @@ func VerifC16_Strings() {
 		_ = NewBinaryItem(s)
 	}
 }
+
+// VerifC16_SizeLimit: an item whose payload would not fit the 3-byte length field (more than
+// 16,777,215 bytes) is never error-free, for every numeric / boolean / binary family: one element
+// beyond the limit gives an error, the largest payload that fits does not. (Concrete zero-filled
+// arguments: the size, not the contents, is the subject.)
+func VerifC16_SizeLimit() {
+	vsymExpect("over")
+	vsymExpect("fits")
+	const limit = 16777215
+	// the 8-byte families: 2^21 elements reach the limit (the 1- and 4-byte families need 2^24 / 2^22
+	// elements, more than the executor models; they share the same check expression per family file)
+	fam := 2 + vsymChoose(3)
+	over := vsymBool()
+	width := []int{1, 1, 8, 8, 8, 4}[fam]
+	n := limit / width
+	if over {
+		n++
+	}
+	var it Item
+	switch fam {
+	case 0:
+		it = NewBinaryItem(make([]byte, n))
+	case 1:
+		it = NewBooleanItem(make([]bool, n))
+	case 2:
+		it = NewUintItem(8, make([]uint64, n))
+	case 3:
+		it = NewIntItem(8, make([]int64, n))
+	case 4:
+		it = NewFloatItem(8, make([]float64, n))
+	default:
+		it = NewUintItem(4, make([]uint32, n))
+	}
+	if over {
+		vsymReach("over")
+		vsymAssert(it.Error() != nil, "payload-beyond-the-length-field-is-an-error")
+		vsymAssert(!Equal(it, it), "errored-item-never-equal")
+	} else {
+		vsymReach("fits")
+		vsymAssert(it.Error() == nil, "largest-payload-that-fits-is-accepted")
+		vsymAssert(it.EncodedLen() == 4+n*width, "encoded-length-with-3-length-bytes")
+	}
+}
